@@ -62,6 +62,9 @@ type Sched struct {
 	NSteps   int
 	MaxSteps int
 	Diverged string // non-empty: replayed prefix met a different enabled set
+	// OnQuiesce, if set, is called by the root at every quiescence point (before the next grant):
+	// harness oracles use it to sample ground truth between any two steps.
+	OnQuiesce func()
 	Overrun  bool   // MaxSteps hit
 }
 
@@ -214,6 +217,9 @@ func (s *Sched) Blocked() []string {
 func (s *Sched) Drive() int {
 	for {
 		synctest.Wait()
+		if s.OnQuiesce != nil {
+			s.OnQuiesce()
+		}
 		s.mu.Lock()
 		if len(s.pending) == 0 {
 			s.mu.Unlock()
@@ -336,4 +342,18 @@ func (s *Sched) Do(f func()) {
 			panic("sched.Do: function blocked outside the scheduler")
 		}
 	}
+}
+
+// Yield is a pure scheduling point (always enabled, no effect). The overlay inserts it before
+// channel operations and at the start of goroutines so that goroutines which communicate only
+// through channels can be delayed by the scheduler too.
+func Yield(kind string) {
+	s := cur.Load()
+	if s == nil {
+		return
+	}
+	if goid() == s.rootGid {
+		return
+	}
+	s.Point("yield:"+kind, nil, nil, func() {})
 }
